@@ -333,7 +333,7 @@ FN_NAMES = {1: "cif_create_block", 2: "cif_container_create_frame", 3: "cif_cont
 
 def c05(tier):
     qs = []
-    inst = [(f, {}) for f in (1, 2, 4, 6, 7, 8, 9, 10, 11)]
+    inst = [(f, {}) for f in ((1, 2, 4, 7, 8, 9, 10, 11) if tier == "quick" else (1, 2, 4, 6, 7, 8, 9, 10, 11))]   # set_value: ~330 s, thorough only
     inst += [(3, {"NNAMES": n}) for n in ((1, 3) if tier == "quick" else (1, 2, 3))]
     inst += [(5, {"NNAMES": n}) for n in ((1, 2) if tier == "quick" else (1, 2, 3))]
     for (f, extra) in inst:
@@ -353,7 +353,34 @@ META["C05"] = {"files": ["cif.c", "container.c", "loop.c", "internal/utils.h"], 
                "assumptions": ["SQLite's rollback / rollback-to restores the previous content (trusted)", "malloc does not fail here (C17)", "arguments are valid and of a fixed small shape"],
                "outside": ["failures detected inside SQL (duplicate detection itself)", "that the rolled-back database equals the prior one"]}
 
-REG = {"C05": c05, "C17": c17, "C20": c20, "C10": c10, "C18": c18, "C09": c09, "C08": c08, "C14": c14, "C19": c19, "C07": c07}
+
+# ------------------------------------------------------------------------------------------ C06
+def c06(tier):
+    qs = []
+    scripts = {"full2": "{1,0},{1,1},{2,0},{2,1}", "sparse": "{1,0},{3,1}", "one": "{4,1}", "empty": "{0,0}"}
+    seqs = ["nnnc", "nunc", "unc", "nrua", "nfnc", "nrrc", "nnna", "rnc", "nurnc", "nnunc"] if tier == "quick" else \
+           ["".join(x) + e for n in (1, 2, 3) for x in __import__("itertools").product("nufr", repeat=n) for e in "ca"] + ["nnnnc", "nnnna"]
+    for sn, sc in scripts.items():
+        for cs in (seqs if sn != "empty" else ["nc"]):
+            if tier == "quick" and sn in ("one",) and cs not in ("nnnc", "nunc", "nrua"):
+                continue
+            for fc, fresh in [(f, fr) for f in ((0, 3, 6, 9, 12) if tier == "quick" else range(0, 25)) for fr in ((1,) if (tier == "quick" and f) else (0, 1))]:
+              qs.append(Q("C06_itr_%s_%s_f%02d%s" % (sn, cs, fc, "" if fresh else "_reuse"), "h06_itr.c", defs={"ROWSCRIPT": sc, "CALLS": '"%s"' % cs, "FAILCALL": fc, "FRESH": fresh}, extra=SQL_EXTRA, libtus=SQL_TUS,
+                        unwind=8, unwindset=VAL_REC + ["memcmp.*:8", "live_stmts.*:31", "teardown.*:31", "strcmp.*:80", "strncmp.*:20", "memset.*:700",
+                                                       "sqlite3_prepare_v2.*:18", "sqlite3_clear_bindings.*:18", "sqlite3_finalize.*:18", "sqlite3_step.*:18"], mode="func",
+                        replay_libs=["-licuio", "-licui18n", "-licuuc", "-licudata"], native_extra=["stubs/icu_norm_cheap.c", "stubs/sqlite_env.c"], object_bits=10, group="h06_itr",
+                        bounds={"row script (row_num,name)": sc, "calls": cs, "failing engine call": fc or "none", "next() target": "fresh packet" if fresh else "previous packet reused"},
+                        note="iterator state machine vs reference"))
+    return qs
+
+
+META["C06"] = {"files": ["pktitr.c", "loop.c", "packet.c", "map.c"], "functions": ["cif_loop_get_packets", "cif_pktitr_next_packet", "cif_pktitr_update_packet",
+               "cif_pktitr_remove_packet", "cif_pktitr_close", "cif_pktitr_abort", "cif_pktitr_free", "cif_loop_get_names_internal"],
+               "stubs": ["stubs/sqlite_env.c with a concrete row script for the iterator SELECT", "stubs/icu_str.c", "stubs/icu_norm_cheap.c", "stubs/uthash_model"],
+               "assumptions": ["the SELECT returns rows ordered by row_num > 0 with names of the loop (its own contract)", "row scripts and call sequences concrete, enumerated"],
+               "outside": ["that the SELECT returns each stored packet exactly once (SQL)", "SQLite's atomic commit / rollback"]}
+
+REG = {"C05": c05, "C06": c06, "C17": c17, "C20": c20, "C10": c10, "C18": c18, "C09": c09, "C08": c08, "C14": c14, "C19": c19, "C07": c07}
 
 
 def for_property(pid, tier):
@@ -441,3 +468,12 @@ MANI["C05"] = {
     "note": "SQLite itself is replaced by stubs/sqlite_env.c (transaction stack semantics, dirty marks, statement life cycle); that SQLite's "
             "rollback restores the content, and errors detected inside SQL (constraints, triggers), are trusted / outside; arguments "
             "are concrete valid names of a small fixed shape; row-change counts the C code inspects are 0 or 1 (primary-key statements)"}
+
+MANI["C06"] = {
+    "text": "Bounded model checking of the real iterator functions over the SQLite environment stub with enumerated row scripts and call "
+            "sequences (next / update / foreign update / remove, then close or abort) and symbolic engine outcomes: packets delivered once "
+            "with every item (unknown where none stored) then CIF_FINISHED, CIF_EMPTY_LOOP, CIF_MISUSE without a current packet, "
+            "CIF_WRONG_LOOP with rollback, row addressed = most recently delivered, close commits / abort rolls back, autocommit restored, "
+            "statement finalised once.",
+    "note": "SQLite replaced by stubs/sqlite_env.c; that the SELECT yields every stored packet once, and atomicity of commit/rollback, are "
+            "trusted; loop of two items, <= 2 packets, call sequences <= 5 (quick: 10 curated sequences)"}
